@@ -70,6 +70,17 @@ def _build(path):
         tx.append_data(tablekit.rows(1, start=18, tag="b3"))
         tx.commit()
     t.append_records(tablekit.rows(2, start=20, tag="c"))
+    # a PRE-BUILT file registered WITHOUT a checksum (file-level API): it cannot be verified itself — and must not weaken the
+    # verification of the files that do carry one
+    import pyarrow as pa
+    import pyarrow.parquet as pq
+    from datashard.data_structures import DataFile, FileFormat
+    os.makedirs(os.path.join(path, "data", "nochk"), exist_ok=True)
+    pre = os.path.join(path, "data", "nochk", "pre.parquet")
+    rows_ = tablekit.rows(2, start=30, tag="pre")
+    pq.write_table(pa.Table.from_pylist(rows_, schema=t.file_manager.data_file_manager.create_arrow_schema(tablekit.schema())), pre)
+    t.append_data([DataFile(file_path="/data/nochk/pre.parquet", file_format=FileFormat.PARQUET, partition_values={}, record_count=2,
+                            file_size_in_bytes=os.path.getsize(pre), checksum=None)])
     paths = tablekit.data_paths(t)
     with t.new_transaction() as tx:        # a whole manifest dropped AND a partial delete: the rewritten manifest carries the survivors
         tx.delete_files(["/" + paths[0], "/" + paths[1]])
@@ -223,7 +234,8 @@ def run(ctx, model_ok):
                     rep.distribution[f"{kind}/{dname}:{outcome.split(':')[0]}"] += 1
                     touches = kind in TOUCHES[api]
                     case = {"kind": "damage", "file_kind": kind, "damage": dname, "api": api, "file": rel}
-                    must_raise = touches and (unparseable or (kind == "data" and api in CHECKSUM_ON and not bytes_same and dname != "transient"))
+                    has_checksum = "data/nochk/" not in rel
+                    must_raise = touches and (unparseable or (kind == "data" and has_checksum and api in CHECKSUM_ON and not bytes_same and dname != "transient"))
                     if dname == "transient":
                         must_raise = touches and touched_now
                     if must_raise:
@@ -249,12 +261,12 @@ def run(ctx, model_ok):
                     if model_ok:
                         status = "ok" if ((same_content and dname != "transient") and (kind != "data" or bytes_same)) else ("missing" if dname == "deleted" else ("transient" if dname == "transient" else
                                  ("unparseable" if unparseable else "altered")))
-                        chk = "1" if api in CHECKSUM_ON else "0"
+                        chk = "1" if api in CHECKSUM_ON and has_checksum else "0"
                         if status != "altered" or (kind == "data" and chk == "1"):     # unverified altered bytes: outside the property
                             model_rows.append((f"rd.outcome {kind} {status} {'1' if touches else '0'} {chk}",
                                                "raise" if outcome.startswith("raise") else ("same" if got == clean[api] else "different"), case))
         # ---- a WARM handle: it has already read (and verified) every file once; the damage happens afterwards
-        for rel in [r_ for r_ in targets if _kind(r_) == "data"]:
+        for rel in [r_ for r_ in targets if _kind(r_) == "data" and "data/nochk/" not in r_]:
             data = store.get(rel)
             sib = next((store.get(o) for o in by_kind["data"] if o != rel), None)
             for dname, dbytes in _damages(data, sib):
@@ -286,6 +298,45 @@ def run(ctx, model_ok):
                     else:
                         rep.violate("C14:partial-or-altered-rows:data:" + dname, f"{api} through a handle that had read the table before: data file {dname} "
                                     f"afterwards: returned {len(got)} rows instead of raising", case)
+        # ---- the bytes of a checksummed data file CHANGE (to a sibling's: they still parse) between two reads of one scan: whichever
+        # read is hashed must be the one that is parsed — the answer is the undamaged rows or an error, never the altered rows
+        for rel in [r_ for r_ in targets if _kind(r_) == "data" and "data/nochk/" not in r_][:2]:
+            data = store.get(rel)
+            sib = next((store.get(o) for o in by_kind["data"] if o != rel and "data/nochk/" not in o), None)
+            if sib is None:
+                continue
+            for api in ("scan", "scan_parallel", "scan_filter_cols", "scan_batches", "iter_records"):
+                for k in (1, 2, 3):
+                    shutil.rmtree(path)
+                    shutil.copytree(snap, path, copy_function=shutil.copy2)
+                    hw = tablekit.load(path)
+                    st_, dfm_ = hw.storage, hw.file_manager.data_file_manager
+                    n_ = {"reads": 0}
+
+                    def content(_n=n_, _k=k):
+                        _n["reads"] += 1
+                        return data if _n["reads"] < _k else sib
+                    o_rf, o_of, o_ops = st_.read_file, st_.open_file, dfm_.open_parquet_source
+                    st_.read_file = lambda p_, *a_, _o=o_rf, **k_: content() if str(p_).lstrip("/") == rel else _o(p_, *a_, **k_)
+                    st_.open_file = lambda p_, *a_, _o=o_of, **k_: io.BytesIO(content()) if str(p_).lstrip("/") == rel else _o(p_, *a_, **k_)
+                    dfm_.open_parquet_source = lambda p_, _o=o_ops: io.BytesIO(content()) if str(p_).lstrip("/") == rel else _o(p_)
+                    rep.evaluations += 1
+                    case = {"kind": "content-changes-between-reads", "api": api, "file": rel, "changed_from_read": k}
+                    try:
+                        got = APIS[api](hw)
+                    except Exception:       # noqa: BLE001
+                        got = None
+                    finally:
+                        for o_, nm_ in ((st_, "read_file"), (st_, "open_file"), (dfm_, "open_parquet_source")):
+                            try:
+                                delattr(o_, nm_)
+                            except AttributeError:
+                                pass
+                    if n_["reads"] >= k:
+                        rep.nontrivial(["c14-changing", api, rel, k])
+                    if got is not None and got != clean[api]:
+                        rep.violate("C14:partial-or-altered-rows:data:changed-between-reads", f"{api}: the bytes of {os.path.basename(rel)[:24]} changed (to a sibling's) from "
+                                    f"read #{k} of the scan on; the scan returned {len(got)} rows that are not the undamaged answer ({len(clean[api])} rows) and did not raise", case)
         if model_ok and model_rows:
             replies = driver.ask([r for r, _i, _c in model_rows])
             for (rq, impl, case), m in zip(model_rows, replies):
